@@ -45,7 +45,7 @@ def ground_size(spec):
             labels = set()
             for c in cls:
                 labels.add(c['slabel']); labels.add(c['olabel'])
-            n += u ** len(labels) * (1 + len(cls))
+            n += u ** len(labels) * (1 + len(cls)) * (len(s['oneof'][1]) if s.get('oneof') else 1)
     return max(1, n)
 
 
